@@ -44,8 +44,25 @@ def install():
         m.threading = SHIM
     s3transfer.bandwidth.time = _TimeShim()
     _install_hashes()
+    _install_bw_probe()
     import logging
     logging.disable(logging.CRITICAL)
+
+
+def _install_bw_probe():
+    # observation only: mark the beginning of every read() of a throttled stream in the trace
+    cls = s3transfer.bandwidth.BandwidthLimitedStream
+    if getattr(cls.read, '_vt_probe', False):
+        return
+    orig = cls.read
+
+    def read(self, amount):
+        sch = detsched.active()
+        if sch is not None and not sch.inline and sch.current is not None:
+            sch.emit('bw.read', amount=amount, enabled=self._bandwidth_limiting_enabled)
+        return orig(self, amount)
+    read._vt_probe = True
+    cls.read = read
 
 
 class _TimeShim:
